@@ -3,6 +3,7 @@ from .. import gen, rm
 from ..rm import q, r, R, h32, F1, F2, fmul, fpow, finv, frob, fadd, fsub, fneg
 
 ID = 'C17'
+PERTURB = (8, 80)      # cases re-run in the repeat / parallel perturbation passes (quick, thorough)
 EXES = ['release']
 NEEDS_HOOKS = True
 RULE = ('each event is one call of an internal tower / pairing-engine function, reached through the cfg(john_yu_sm9_core_verif) re-exports, '
@@ -48,7 +49,7 @@ def required(tier):
     req += ['f12.frob/%d' % k for k in (1, 2, 3, 6)] + ['f12.mul/cancel', 'f4.mul/cancel']
     req += ['f12.fexp', 'f12.fexp2', 'f12.fexp/zero', 'f12.fexp2/zero', 'f12.first', 'f12.last1', 'f12.last2', 'f12.fexp/non-unitary', 'f12.fexp/subfield',
             'ml.jac', 'ml.prep', 'ml.agree', 'ml.jac/Q-aff', 'ml.jac/Q-scaled', 'ml.jac/Q-jac', 'carry.f4mul/0', 'carry.f4mul/1', 'carry.f4mul/2', 'class/sparse', 'class/unitary', 'class/max-carry',
-            'class/subfield', 'class/uniform', 'class/limbs']
+            'class/subfield', 'class/uniform', 'class/limbs', 'class/norm-one', 'class/near-one']
     return req
 
 
@@ -97,7 +98,21 @@ def element12(rng):
         x = [rng.randrange(q) for _ in range(12)]
         return fmul(frob(x, 6), finv(x)), 'unitary'
     if k == 3:
-        return [coeff(rng, 'max-carry') for _ in range(12)], 'max-carry'
+        if rng.random() < 0.5:
+            return [coeff(rng, 'max-carry') for _ in range(12)], 'max-carry'
+        # relative norm one without being unitary: y^(q^k - 1) has norm 1 to the fixed field of the q^k-power map (k = 4: to Fq4)
+        y = [rng.randrange(q) for _ in range(12)]
+        kk = rng.choice([1, 2, 3, 4])
+        return fmul(frob(y, kk), finv(y)), 'norm-one'
+    if k == 9 and rng.random() < 0.6:
+        # identity-like elements: one (or zero) plus a perturbation confined to a single coefficient block / a single coefficient
+        a = [0] * 12
+        a[0] = rng.choice([1, 1, 1, 0, q - 1])
+        blk = rng.choice([[1, 4, 7, 10], [2, 5, 8, 11], [3, 9], [6], [rng.randrange(1, 12)]])
+        for e in blk:
+            if rng.random() < 0.7:
+                a[e] = rng.randrange(1, q)
+        return a, 'near-one'
     if k in (4, 5):
         return [coeff(rng, 'limbs') for _ in range(12)], 'limbs'
     return [rng.randrange(q) for _ in range(12)], 'uniform'
@@ -105,7 +120,7 @@ def element12(rng):
 
 def element4(rng):
     a, cls = element12(rng)
-    if cls == 'unitary':
+    if cls in ('unitary', 'norm-one'):
         cls = 'uniform'
         a = [rng.randrange(q) for _ in range(12)]
     x = rm.f12_to4(a, 0)
@@ -225,9 +240,9 @@ def run(ctx, spec):
     elif kind == 'fexp':
         a, ca = element12(rng)
         ctx.classes['class/' + ca] += 1
-        A = h12(a)
         if not any(a):
             a[0] = 1
+        A = h12(a)
         full = fpow(a, rm.FINAL_EXP)
         sfx = '/subfield' if ca == 'subfield' else '/non-unitary' if ca != 'unitary' else ''
         add('_ f12.fexp %s' % A, 'f12.fexp', 'ok ' + h12(full), ('fexp', A), nz(a))
